@@ -1747,7 +1747,14 @@ fn run_scn(env: &mut Env, scn: Scn, out: &mut Out) {
         out.viol("worker-died", &format!("the worker thread ended during the scenario ({shape})"));
         ok = false;
     }
-    out.obs(&[ts(if ok { "ok" } else { "fail" }), tn(scn.n), tn(req_total), tn(resp_total)]);
+    if scn.abort == 0 {
+        out.obs(&[ts(if ok { "ok" } else { "fail" }), tn(scn.n), tn(req_total), tn(resp_total)]);
+    } else {
+        // a sender that aborts: the byte counts are any prefix (not part of the specification,
+        // see the `blackbox` op of coq/C01/Run.v); they stay in the notes
+        out.note(&format!("abort={} request bytes {req_total} response bytes {resp_total}", scn.abort));
+        out.obs(&[ts(if ok { "ok" } else { "fail" }), tn(scn.n)]);
+    }
 }
 
 fn main() {
